@@ -135,6 +135,11 @@ class IndexClient(PathClient):
         for k, v in self.defs.items():
             if any(r in src_of(v) for r in recvs):
                 words.add(k)
+        # boolean carriers assigned on several branches (closed = len(tokens) and ..  /  closed = tokens and ..)
+        for n in f.body_nodes():
+            if isinstance(n, ast.Assign) and len(n.targets) == 1 and isinstance(n.targets[0], ast.Name) and isinstance(n.value, (ast.BoolOp, ast.Compare, ast.Call, ast.UnaryOp)):
+                if any(re.search(r'(?<![\w.])%s(?![\w])' % re.escape(r), src_of(n.value)) for r in recvs):
+                    words.add(n.targets[0].id)
         # copies: tokens = node.value[:]  -> conditions on node.value matter for tokens
         for k, v in self.defs.items():
             if k in recvs and isinstance(v, ast.Subscript):
